@@ -205,6 +205,23 @@ type c18Case struct {
 	Root     string   `json:"root_hex"`
 	Verifier string   `json:"verifier"`
 	What     string   `json:"what"`
+	// presentations made earlier on the SAME verifier instance (reused-verifier family)
+	Before []c18Step `json:"before_on_same_verifier,omitempty"`
+}
+
+type c18Step struct {
+	Key   string   `json:"key_hex"`
+	Proof []string `json:"proof_hex"`
+	What  string   `json:"what"`
+}
+
+// c18Pres is one (key, proof) presentation with the oracle class that applies to
+// it regardless of what the verifier has seen before.
+type c18Pres struct {
+	key   string
+	proof [][]byte
+	mode  string // genuine | reject | sound
+	what  string
 }
 
 func c18HexProof(p [][]byte) []string {
@@ -216,7 +233,7 @@ func c18HexProof(p [][]byte) []string {
 }
 
 type c18Counters struct {
-	proves, genuine, mutated, crossKey, wrongRoot, rejected, absentProofNil, embeddedPaths, multiElem int64
+	proves, genuine, mutated, crossKey, wrongRoot, rejected, absentProofNil, embeddedPaths, multiElem, reusedSeqs, reusedCalls int64
 }
 
 type c18Ctx struct {
@@ -231,17 +248,24 @@ func c18NoValue(v []byte, err error) bool { return err != nil || len(v) == 0 }
 //	mode "genuine": must yield want
 //	mode "reject":  must be rejected (error / no value); a value != truth is the severe case
 //	mode "sound":   may be rejected, may yield the true value, must never yield anything else
-func (cx *c18Ctx) verify(t *c18Trie, vname string, v c18Imm, key string, proof [][]byte, mode, what string) {
+func (cx *c18Ctx) verify(t *c18Trie, vname string, v c18Imm, key string, proof [][]byte, mode, what string, before ...c18Step) {
 	atomic.AddInt64(&cx.cnt.proves, 1)
 	val, err, pan := v.Prove(key, proof)
 	fl := []string{"bytes", "object"}[t.flavour]
 	truth, stored := t.m.get(key)
 	mk := func() c18Case {
-		return c18Case{t.flavour, t.m, hex.EncodeToString([]byte(key)), c18HexProof(proof), hex.EncodeToString(t.root), vname, what}
+		return c18Case{t.flavour, t.m, hex.EncodeToString([]byte(key)), c18HexProof(proof), hex.EncodeToString(t.root), vname, what, before}
 	}
 	desc := func() string {
-		return fmt.Sprintf("%s trie %v root %x, key %x (stored=%v), %s, verifier=%s: Prove -> value=%q err=%v panic=%q; proof=%v",
+		d := fmt.Sprintf("%s trie %v root %x, key %x (stored=%v), %s, verifier=%s: Prove -> value=%q err=%v panic=%q; proof=%v",
 			fl, t.m, t.root[:4], key, stored, what, vname, val, err, pan, c18HexProof(proof))
+		for i, b := range before {
+			d += fmt.Sprintf("\n  earlier call %d on the same verifier: key %s, %s", i+1, b.Key, b.What)
+		}
+		return d
+	}
+	if len(before) > 0 {
+		fl += "/reused-verifier"
 	}
 	if pan != "" {
 		shape := "stored-key"
@@ -385,7 +409,8 @@ func c18Neighbours(m c18Map, vals []string) []c18Map {
 	return out
 }
 
-func (cx *c18Ctx) checkMap(flavour int, m c18Map, probe []string, vals []string, panel []*c18Trie, full bool) {
+func (cx *c18Ctx) checkMap(flavour int, m c18Map, probe []string, vals []string, panel []*c18Trie, full bool, stateful int) {
+	var pres []c18Pres
 	t := c18Build(flavour, m)
 	fl := []string{"bytes", "object"}[flavour]
 	proofs := map[string][][]byte{}
@@ -393,7 +418,7 @@ func (cx *c18Ctx) checkMap(flavour int, m c18Map, probe []string, vals []string,
 		var pm, pr [][]byte
 		pan := ev.Catch(func() { pm = t.mem.GetProof(k); pr = t.re.GetProof(k) })
 		_, stored := m.get(k)
-		cs := c18Case{flavour, m, hex.EncodeToString([]byte(k)), nil, hex.EncodeToString(t.root), "-", "GetProof"}
+		cs := c18Case{flavour, m, hex.EncodeToString([]byte(k)), nil, hex.EncodeToString(t.root), "-", "GetProof", nil}
 		if pan != "" {
 			cx.r.Violation("GetProof-panics/"+fl, fmt.Sprintf("%s trie %v key %x: %s", fl, m, k, pan), cs)
 			continue
@@ -441,6 +466,12 @@ func (cx *c18Ctx) checkMap(flavour int, m c18Map, probe []string, vals []string,
 			// warmed verifier: first the genuine proof, then altered ones on the same instance
 			warm := c18Verifier(flavour, t.root)
 			cx.verify(t, "fresh", warm, k, p, "genuine", "genuine:unaltered proof")
+			pres = append(pres, c18Pres{k, p, "genuine", "genuine:unaltered proof"})
+			for ni, nt := range neigh {
+				if np := nt.mem.GetProof(k); np != nil && !c18EqualProof(np, p) {
+					pres = append(pres, c18Pres{k, np, "reject", fmt.Sprintf("other-root:whole proof of this key from neighbour trie %d %v", ni, nt.m)})
+				}
+			}
 			// 2. single-element mutations
 			donors := map[string][][]byte{}
 			for k2, p2 := range proofs {
@@ -455,6 +486,7 @@ func (cx *c18Ctx) checkMap(flavour int, m c18Map, probe []string, vals []string,
 			}
 			for _, mu := range c18Mutations(p, donors) {
 				atomic.AddInt64(&cx.cnt.mutated, 1)
+				pres = append(pres, c18Pres{k, mu.proof, "reject", mu.what})
 				cx.verify(t, "fresh", c18Verifier(flavour, t.root), k, mu.proof, "reject", mu.what)
 				if full {
 					cx.verify(t, "realized", t.mem, k, mu.proof, "reject", mu.what)
@@ -487,6 +519,82 @@ func (cx *c18Ctx) checkMap(flavour int, m c18Map, probe []string, vals []string,
 			what := fmt.Sprintf("other-key-proof:proof of key %x presented for this key", k2)
 			cx.verify(t, "fresh", c18Verifier(flavour, t.root), k, p2, "sound", what)
 			cx.verify(t, "realized", t.mem, k, p2, "sound", what)
+			pres = append(pres, c18Pres{k, p2, "sound", what})
+		}
+	}
+	cx.reused(t, pres, stateful)
+}
+
+// reused: the verifier trie is REUSED across Prove calls (as consensus.partSet
+// does): every presentation must get the verdict of its class whatever was
+// presented to the same verifier before.
+//
+//	level 1: for every non-genuine presentation a: [a,a], [a,a,genuine of a's key],
+//	         and for every genuine presentation g: [a,g], [g,a]
+//	level -1: only [a,a] and [a, genuine of a's key]
+//	level 2: every ordered pair of presentations
+//	level 3: every ordered triple of presentations
+func (cx *c18Ctx) reused(t *c18Trie, pres []c18Pres, level int) {
+	if level == 0 || len(pres) == 0 {
+		return
+	}
+	run := func(seq ...int) {
+		atomic.AddInt64(&cx.cnt.reusedSeqs, 1)
+		v := c18Verifier(t.flavour, t.root)
+		var before []c18Step
+		for j, i := range seq {
+			p := pres[i]
+			if j == 0 {
+				// first call on a fresh verifier: same as the "fresh" checks, but it must be executed
+				v.Prove(p.key, p.proof)
+			} else {
+				atomic.AddInt64(&cx.cnt.reusedCalls, 1)
+				cx.verify(t, fmt.Sprintf("reused(call %d)", j+1), v, p.key, p.proof, p.mode, p.what, before...)
+			}
+			before = append(before, c18Step{hex.EncodeToString([]byte(p.key)), c18HexProof(p.proof), p.what})
+		}
+	}
+	var genuine []int
+	for i, p := range pres {
+		if p.mode == "genuine" {
+			genuine = append(genuine, i)
+		}
+	}
+	switch level {
+	case 1, -1:
+		for a, p := range pres {
+			if p.mode == "genuine" {
+				continue
+			}
+			run(a, a)
+			for _, g := range genuine {
+				same := pres[g].key == p.key
+				if level == -1 {
+					if same {
+						run(a, g)
+					}
+					continue
+				}
+				run(a, g)
+				run(g, a)
+				if same {
+					run(a, a, g)
+				}
+			}
+		}
+	case 2:
+		for a := range pres {
+			for b := range pres {
+				run(a, b)
+			}
+		}
+	default:
+		for a := range pres {
+			for b := range pres {
+				for c := range pres {
+					run(a, b, c)
+				}
+			}
 		}
 	}
 }
@@ -500,7 +608,7 @@ func (cx *c18Ctx) verifyOther(t, o *c18Trie, k string, p [][]byte) {
 		imm  c18Imm
 	}{{"fresh", c18Verifier(t.flavour, o.root)}, {"realized", o.mem}} {
 		val, err, pan := v.imm.Prove(k, p)
-		cs := c18Case{t.flavour, t.m, hex.EncodeToString([]byte(k)), c18HexProof(p), hex.EncodeToString(o.root), v.name, "wrong-root:other map " + o.m.String()}
+		cs := c18Case{t.flavour, t.m, hex.EncodeToString([]byte(k)), c18HexProof(p), hex.EncodeToString(o.root), v.name, "wrong-root:other map " + o.m.String(), nil}
 		d := fmt.Sprintf("%s: proof of key %x from trie %v verified under the root of trie %v (%s verifier): value=%q err=%v panic=%q", fl, k, t.m, o.m, v.name, val, err, pan)
 		if pan != "" {
 			cx.r.Violation("Prove-panics/wrong-root/"+fl, d, cs)
@@ -530,14 +638,14 @@ func TestVerifC18(t *testing.T) {
 		fmt.Printf("replaying %s trie %v key %x %s verifier=%s\n", []string{"bytes", "object"}[c.Flavour], c.Map, key, c.What, c.Verifier)
 		if strings.HasPrefix(c.What, "wrong-root") || c.What == "GetProof" {
 			// re-run the whole map (cheap) so that the same oracle code path is taken
-			cx.checkMap(c.Flavour, c.Map, append(append([]string(nil), c18AllKeys...), c18ExtraAbsent...), c18AllVals, nil, true)
+			cx.checkMap(c.Flavour, c.Map, append(append([]string(nil), c18AllKeys...), c18ExtraAbsent...), c18AllVals, nil, true, 0)
 		} else {
 			mode := "sound"
 			switch {
 			case strings.HasPrefix(c.What, "genuine"):
 				mode = "genuine"
 			case strings.HasPrefix(c.What, "flip"), strings.HasPrefix(c.What, "truncate"), strings.HasPrefix(c.What, "extend"),
-				strings.HasPrefix(c.What, "delete"), strings.HasPrefix(c.What, "swap"), strings.HasPrefix(c.What, "splice"):
+				strings.HasPrefix(c.What, "delete"), strings.HasPrefix(c.What, "swap"), strings.HasPrefix(c.What, "splice"), strings.HasPrefix(c.What, "other-root"):
 				mode = "reject"
 			}
 			v := c18Verifier(c.Flavour, root)
@@ -551,7 +659,16 @@ func TestVerifC18(t *testing.T) {
 					v.Prove(string(key), p)
 				}
 			}
-			cx.verify(tr, c.Verifier, v, string(key), proof, mode, c.What)
+			for _, b := range c.Before {
+				bk, _ := hex.DecodeString(b.Key)
+				var bp [][]byte
+				for _, e := range b.Proof {
+					x, _ := hex.DecodeString(e)
+					bp = append(bp, x)
+				}
+				v.Prove(string(bk), bp)
+			}
+			cx.verify(tr, c.Verifier, v, string(key), proof, mode, c.What, c.Before...)
 		}
 		r.Finish(false)
 		return
@@ -565,7 +682,7 @@ func TestVerifC18(t *testing.T) {
 	nEnum := len(maps)
 	maps = append(maps, c18FixedMap(16), c18FixedMap(40))
 	probe := append(append([]string(nil), keys...), c18ExtraAbsent...)
-	r.Rule(fmt.Sprintf("every map with 1..%d entries over %d keys (hex %x) x %d values (1 and 40 bytes) = %d maps, plus 2 fixed maps of 16 and 40 keys; both trie flavours; for every map and every key of the universe + %d never-stored keys: GetProof from the in-memory and from the reloaded trie; genuine proof under 4 verifiers (fresh from root hash, realized, reloaded, warmed); every single-element mutation (flip byte first/middle/last xor 01/80, truncate, extend, delete element, swap neighbours, splice in the element of every other key's proof and of the same key's proof in every neighbouring trie (one entry removed / one value changed)) under fresh, realized and warmed verifiers; the proof of every other stored key presented for the key; the genuine proof under the roots of all maps with <= 2 entries and of all neighbouring tries. Non-trivial = distinct (flavour, map, stored key) whose proof went through all of this",
+	r.Rule(fmt.Sprintf("every map with 1..%d entries over %d keys (hex %x) x %d values (1 and 40 bytes) = %d maps, plus 2 fixed maps of 16 and 40 keys; both trie flavours; for every map and every key of the universe + %d never-stored keys: GetProof from the in-memory and from the reloaded trie; genuine proof under 4 verifiers (fresh from root hash, realized, reloaded, warmed); every single-element mutation (flip byte first/middle/last xor 01/80, truncate, extend, delete element, swap neighbours, splice in the element of every other key's proof and of the same key's proof in every neighbouring trie (one entry removed / one value changed)) under fresh, realized and warmed verifiers; the proof of every other stored key presented for the key; the genuine proof under the roots of all maps with <= 2 entries and of all neighbouring tries. REUSED verifier (one verifier trie, several Prove calls, verdict of every call must not depend on the earlier ones; presentations = genuine proofs of all stored keys, all mutations, whole proofs of the key from neighbouring tries, other keys' proofs): every ordered pair of presentations for maps with <= 2 entries (thorough: every ordered triple for 1-entry maps); for 3-entry maps [a,a], [a,a,genuine], [a,g], [g,a] for every altered presentation a and every genuine g; for 4-entry maps and the fixed maps [a,a], [a,genuine of the same key]. Non-trivial = distinct (flavour, map, stored key) whose proof went through all of this",
 		maxN, nk, keys, nv, nEnum, len(c18ExtraAbsent)))
 	r.Assume("appending surplus trailing elements to a proof is not in the alphabet (ambiguous in the statement; such a proof certifies only true data)",
 		"values are non-empty",
@@ -596,7 +713,19 @@ func TestVerifC18(t *testing.T) {
 		if !full {
 			panel = panel[:20]
 		}
-		cx.checkMap(i%2, m, probeFor(m, probe), vals, panel, full)
+		// reused-verifier family: all ordered triples for 1-entry maps (thorough),
+		// all ordered pairs for maps with <= 2 entries, the directed sequences of
+		// level 1 for 3-entry maps, same-key-only for 4-entry maps and the fixed maps
+		level := 1
+		switch {
+		case len(m) == 1 && r.Thorough():
+			level = 3
+		case len(m) <= 2:
+			level = 2
+		case len(m) == 4 || len(m) > 8:
+			level = -1
+		}
+		cx.checkMap(i%2, m, probeFor(m, probe), vals, panel, full, level)
 		atomic.AddInt64(&done, 1)
 		_ = mu
 	})
@@ -614,6 +743,9 @@ func TestVerifC18(t *testing.T) {
 	r.Set("wrong_root_verifications", cx.cnt.wrongRoot)
 	r.Set("rejections_observed", cx.cnt.rejected)
 	r.Set("absent_keys_with_nil_GetProof", cx.cnt.absentProofNil)
+	r.Set("reused_verifier_sequences", cx.cnt.reusedSeqs)
+	r.Set("reused_verifier_checked_calls", cx.cnt.reusedCalls)
+	r.Sanity(cx.cnt.reusedSeqs > 10000, "vacuity: only %d reused-verifier sequences", cx.cnt.reusedSeqs)
 	r.Sanity(cx.cnt.genuine > 100 && cx.cnt.multiElem > 10 && cx.cnt.mutated > 1000 && cx.cnt.crossKey > 100 && cx.cnt.wrongRoot > 100 && cx.cnt.rejected > 1000 && cx.cnt.absentProofNil > 100,
 		"vacuity: %+v", cx.cnt)
 	r.Finish(atomic.LoadInt32(&stopped) == 0 && done == int64(len(maps)*2))
